@@ -200,4 +200,64 @@ def freshRun (nregs : Nat) (input : Int) : Run := ⟨0, List.replicate nregs 0, 
 def toySys (body : List Instr) (npools : Nat) (inputs : List Int) : Sys toy :=
   ⟨⟨body, List.replicate npools []⟩, inputs.map (freshRun 4), []⟩
 
+/-! ## Values made by a run, and an artefact that keeps them
+
+`OpLoadFunc`, `OpMethodValue`, … make a *function value* while a run executes: a `callable` — the
+compiled function plus `vars`, the globals of the run that made it (and, lazily, a
+`reflect.MakeFunc` bound to that run's `env`). `ValueMachine` abstracts this: a step makes a value
+from the code and the run's own state (`make`) and does something with it (`use`). `keep = true` is
+the variant in which the artefact has a slot that keeps the first value made and hands it to every
+later step of every run (a memo in the compiled `Function`). -/
+
+structure ValueMachine where
+  Core : Type
+  Local : Type
+  Obs : Type
+  Val : Type
+  make : Core → Local → Val
+  use : Core → Local → Val → Local × List Obs
+
+/-- the value a step works with: the kept one if there is one and the artefact keeps values -/
+def ValueMachine.pick (K : ValueMachine) (keep : Bool) (sh : K.Core × Option K.Val) (l : K.Local) : K.Val :=
+  if keep then sh.2.getD (K.make sh.1 l) else K.make sh.1 l
+
+@[reducible] def ValueMachine.machine (K : ValueMachine) (keep : Bool) : Machine where
+  Shared := K.Core × Option K.Val
+  Local := K.Local
+  Obs := K.Obs
+  step := fun sh l =>
+    ((sh.1, if keep then some (K.pick keep sh l) else sh.2), K.use sh.1 l (K.pick keep sh l))
+
+/-- `make` does not look at the run: the value is the same whichever run makes it (a function
+without captured variables *and* without the run's globals; a constant) -/
+def ValueMachine.RunIndependent (K : ValueMachine) : Prop := ∀ c l l', K.make c l = K.make c l'
+
+/-- artefacts whose slot, if filled, holds the value every run would make -/
+def ValueMachine.Kept (K : ValueMachine) : Type :=
+  { p : K.Core × Option K.Val // ∀ v, p.2 = some v → ∀ l, v = K.make p.1 l }
+
+/-- the keeping machine over such artefacts (it stays among them when `make` is run independent) -/
+def ValueMachine.keeping (K : ValueMachine) (hind : K.RunIndependent) : Machine where
+  Shared := K.Kept
+  Local := K.Local
+  Obs := K.Obs
+  step := fun sh l =>
+    (⟨(sh.1.1, some (sh.1.2.getD (K.make sh.1.1 l))), by
+        intro v hv l'
+        cases h : sh.1.2 with
+        | none => rw [h] at hv; simp at hv; rw [← hv]; exact hind _ _ _
+        | some w => rw [h] at hv; simp at hv; rw [← hv]; exact sh.2 w h l'⟩,
+     K.use sh.1.1 l (sh.1.2.getD (K.make sh.1.1 l)))
+
+/-- the smallest instance with a value that captures its run: the run's state is its global
+variable (its input) and what it has shown; the value made is "the function that reads my global";
+using it shows the global it reads -/
+abbrev capture : ValueMachine where
+  Core := Unit
+  Local := Int × Int
+  Obs := Int
+  Val := Int
+  make := fun _ l => l.1
+  use := fun _ l v => ((l.1, v), [v])
+
 end ScriggoV.Runs
